@@ -105,6 +105,24 @@ CHECKS.update({
         note="Kani/CBMC sound; SystemTime::elapsed and f64::powi stubbed by their contracts (listed); interval window stated.",
         technique="Kani full-domain harnesses (per wire exponent) on the real function with an exact integer oracle",
         design_ref="DESIGN.md section 4, C10"),
+    "C12": dict(
+        category="proof", engine="kani-woven",
+        text="ClockErrorBound::now is proved (Kani, ghost clock) to read CLOCK_REALTIME first and the monotonic clock second, exactly two reads, and to hand tick #1 as `real` and tick #2 as `mono` "
+             "to compute_bound_at, whose result it passes through; a failing clock read is an error, not an interval. One iteration of the real run_clock_error_bound_poller is proved to take its "
+             "as-of reading from the monotonic clock with exactly one read strictly before chronyd is queried, and to put that reading into the report. 'Delay only enlarges' then follows from the "
+             "Verus lemma that the half-width is monotone in the monotonic reading (C05.lemma.monotone).",
+        note="Ghost clock instead of clock_gettime; mpsc/DispatchBox recorders (assumed delivery); one loop iteration; compute_bound_at recorded, not re-verified here.",
+        technique="Kani harnesses with a ghost clock on the real now() and the real poller loop body + Verus monotonicity lemma",
+        design_ref="DESIGN.md section 4, C12"),
+    "C13": dict(
+        category="proof", engine="kani-woven",
+        text="Proved by Kani on the real poller code: is_within_grace_period() <=> last good answer younger than 5 s (ghost monotone clock, real Instant arithmetic); default() starts outside the grace "
+             "period for any later delay; get_tracking stamps 'now' iff a Tracking reply arrives and leaves the stamp on silence or a wrong reply; one loop iteration selects exactly one message per poll: "
+             "silence -> NotResponding(GracePeriod iff within); report with PHC configured and matching reference id -> PHC file read exactly once after the report, its value attached exactly, read "
+             "failure -> PhcErrorBoundRetrievalFailed(GracePeriod iff within) and no data message; report otherwise -> data with PHC term 0, forwarded unchanged.",
+        note="Instant manufactured from its linux representation (assumed valid); network/file I/O replaced by contracts; mpsc/DispatchBox recorders; one iteration (loop state = the poller's stamp only).",
+        technique="Kani full-domain harnesses with ghost clock / I/O contract stubs on the real poller",
+        design_ref="DESIGN.md section 4, C13"),
     "C16": dict(
         category="proof", engine="kani-woven",
         text="ShmHeader::is_valid proved over all 2^128 header contents (Ok iff magic, version != 0, generation != 0, size >= 16; documented error kind per clause). ShmReader::new - the real code "
@@ -115,6 +133,15 @@ CHECKS.update({
         note="Assumed: the POSIX model; contract stubs for is_usable_segment/wipe/mmap_segment_at in ShmWriter::new; wipe's bytes through std::fs + byteorder are unverified (only its contract is used).",
         technique="Kani full-domain harnesses on the real open path with a C POSIX model linked via c-ffi",
         design_ref="DESIGN.md section 4, C16"),
+    "C17": dict(
+        category="proof", engine="kani-woven",
+        text="One table (spec/layout.json, transcribed from docs/PROTOCOL.md and clockbound.h) is checked on both sides: Kani proves size/alignment/field offsets/widths of ShmHeader, ClockErrorBound "
+             "(72 bytes total, status word 0/1/2 at offset 48, fields re-read from the stored bytes with native endianness), and of the FFI's repr(C) mirror types and enum discriminants; CBMC proves the "
+             "same numbers for the real clockbound.h (sizeof/offsetof/enumerators, sys_errno is an int at 4). The conversion layers of both clients are proved total and kind/errno preserving "
+             "(From<ClockStatus>, From<ShmError> for clockbound_err and for ClockBoundError).",
+        note="Target x86_64-unknown-linux-gnu; the table is transcribed by hand; 'same interval at the same moment' across two calls is not a contract (both clients share snapshot + now); thin wrappers are unverified glue.",
+        technique="Kani layout/conversion obligations on the repr(C) types + CBMC on the real C header, both generated from one table",
+        design_ref="DESIGN.md section 4, C17"),
     "C18": dict(
         category="proof", engine="kani-woven",
         text="Proved (complete): with an update in flight (odd generation), a re-initialising segment (version 0 / generation 0) or an unchanged generation, snapshot returns its cached record after two "
